@@ -83,7 +83,9 @@ def run(ctx):
         ctx.note(out[-1500:])
     have_model = os.path.exists(os.path.join(V.VERIF, "ocaml", "C09", "gen_c09.ml"))
     xm = ctx.ocaml("C09", ["gen_c09"]) if have_model else None
-    xh = ctx.harness("C09")
+    # VERIF_C09_XH: run against a given harness binary (used to try a patched/mutated translation unit quickly by
+    # linking it into the harness in front of the shared library)
+    xh = os.environ.get("VERIF_C09_XH") or ctx.harness("C09")
     if xm is None:
         ctx.violation("model-missing", {"what": "extraction produced no model"}, no_input=True)
         return
